@@ -31,6 +31,7 @@ func init() {
 	gens["Src_slashmw.v"] = genGoLoopSlash
 	gens["Src_ipextract.v"] = genGoLoopIP
 	gens["Src_csrfcmp.v"] = genGoLoopCSRFCompare
+	gens["Src_applymw.v"] = genGoLoopApplyMiddleware
 }
 
 // innerHandler finds the innermost function literal of shape func(c echo.Context) error inside fd.
@@ -226,6 +227,17 @@ func (g *goliteCfg) expr(e ast.Expr) (string, error) {
 		}
 		if g.cells[n] {
 			return "EField " + g.str(n), nil
+		}
+		if ie, ok := v.Fun.(*ast.IndexExpr); ok && g.loop && g.pure["apply"] {
+			// fs[i](args): an element of a slice of functions applied - a pure function of the element and the arguments
+			if id, ok := ie.X.(*ast.Ident); ok && g.locals[id.Name] {
+				f, err := g.expr(ie)
+				if err != nil {
+					return "", err
+				}
+				args, _ := g.exprs(v.Args)
+				return fmt.Sprintf("EPred \"apply\" (%s :: %s)", f, args), nil
+			}
 		}
 		if g.pure[fn] {
 			args, _ := g.exprs(v.Args)
@@ -1278,4 +1290,21 @@ func genGoLoopCSRFCompare(repo string) (string, error) {
 		return "", err
 	}
 	return goloopHeader + "(* middleware/csrf.go: validateCSRFToken - the comparison of the cookie's token with a client token.  subtle.ConstantTimeCompare is pure\n   (1 for equal byte strings of equal length, else 0); []byte(s) is the string's bytes. *)\n" + s, nil
+}
+
+func genGoLoopApplyMiddleware(repo string) (string, error) {
+	f, err := parseFile(repo, "echo.go")
+	if err != nil {
+		return "", err
+	}
+	fd := findFunc(f, "", "applyMiddleware")
+	if fd == nil {
+		return "", fmt.Errorf("applyMiddleware not found")
+	}
+	s, err := goliteFunc(fd, "apply_middleware", goliteCfg{loop: true, ignore: map[string]bool{}, extern: map[string]bool{}, cells: map[string]bool{},
+		pure: map[string]bool{"len": true, "apply": true}})
+	if err != nil {
+		return "", err
+	}
+	return goloopHeader + "(* echo.go: applyMiddleware - the loop that wraps a handler in a list of middleware (used for a route's chain, for Echo.Use\n   and for Echo.Pre).  Applying a middleware to a handler is pure: it yields the wrapped handler. *)\n" + s, nil
 }
